@@ -15,6 +15,7 @@ import (
 	"path/filepath"
 	"runtime"
 	"sort"
+	"strings"
 	"sync/atomic"
 	"time"
 
@@ -210,7 +211,50 @@ func stdinModeFor(args []string, stdin []byte) string {
 	return ""
 }
 
+// the flags that take a value, with their one-letter forms: `--name value`, `--name=value`, `-n value` and `-nvalue` are
+// spellings of the same request, and repeated --chord / --attr may be given as one comma-separated list
+var valueFlags = map[string]string{"key": "k", "output": "o", "root": "r", "target": "t", "command": "c", "maxDegree": "d", "bpm": "", "meter": "", "velocity": "",
+	"track": "", "program": "", "instrument": "", "attr": "", "chord": ""}
+
+// respell rewrites the flag spellings of a request as chosen by its hash (five requests in eight keep theirs)
+func respell(args []string, h uint32) []string {
+	sel := (h / 64) % 8
+	if sel < 5 {
+		return args
+	}
+	out := []string{}
+	lists := map[string]int{} // index in out of the first --chord / --attr value, for the comma form
+	for i := 0; i < len(args); i++ {
+		a := args[i]
+		name := strings.TrimPrefix(a, "--")
+		short, isValue := valueFlags[name]
+		if !strings.HasPrefix(a, "--") || !isValue || i+1 >= len(args) {
+			out = append(out, a)
+			continue
+		}
+		v := args[i+1]
+		i++
+		switch {
+		case sel == 7 && (name == "chord" || name == "attr") && !strings.Contains(v, ","):
+			if j, ok := lists[name]; ok {
+				out[j] += "," + v
+			} else {
+				out = append(out, a, v)
+				lists[name] = len(out) - 1
+			}
+		case sel == 7 && short != "" && v != "" && !strings.HasPrefix(v, "-") && !strings.HasPrefix(v, "="):
+			out = append(out, "-"+short+v)
+		case sel == 6 && short != "":
+			out = append(out, "-"+short, v)
+		default:
+			out = append(out, a+"="+v)
+		}
+	}
+	return out
+}
+
 func (c *Ctx) crd(args []string, stdin []byte) run.Result {
+	args = respell(args, requestHash(args, stdin))
 	mode := stdinModeFor(args, stdin)
 	if c.debugRotate && (requestHash(args, stdin)/8)%8 == 3 {
 		args = append(append([]string{}, args...), "--debug")
